@@ -20,7 +20,8 @@ LEVEL_TEXT = ("seeded search over datasets x rebuild routes x insertion orders x
               "multiset equality of the rankings the two objects contain, plus reflexivity, symmetry and consistency "
               "with ranking equality")
 ASSUMPTIONS = ["equality oracle = collections.Counter over tuples of frozensets of (typed) element values"]
-EXPECTED_PROBES = ["equal_pairs", "unequal_pairs", "collision_pool", "reordered_bucket", "near_miss", "derived_route"]
+EXPECTED_PROBES = ["equal_pairs", "unequal_pairs", "collision_pool", "reordered_bucket", "near_miss", "derived_route",
+                   "edited_in_place"]
 STATES_MEASURE = "distinct (variant kind, expected verdict, observed verdict) triples"
 
 
@@ -42,7 +43,8 @@ def gen_case(st, tier, env):
     for _ in range(k.choice([4, 6, 8])):
         kind = w.choice(["permute", "reinsertion", "reinsertion", "reverse_buckets", "as_elements", "rename",
                          "sub_problem_all", "unified", "file", "move_element", "split_bucket", "merge_buckets",
-                         "multiplicity", "swap_buckets", "replace_element", "blank_name", "comma_name", "self"])
+                         "multiplicity", "swap_buckets", "replace_element", "blank_name", "comma_name", "self",
+                         "edit_in_place", "edit_in_place"])
         new = [[list(b) for b in r] for r in rk]
         spec = dict(base)
         v = {"kind": kind}
@@ -64,6 +66,15 @@ def gen_case(st, tier, env):
             spec["name"] = w.choice(["x", "other name", ""])
         elif kind in ("sub_problem_all", "unified", "file", "self"):
             v["derive"] = kind
+        elif kind == "edit_in_place":
+            # history: compare first (whatever equality caches is filled), then one side is edited in place by a
+            # mutator, then compared again; the verdict must follow the contents
+            v["edit"] = {"side": w.choice(["a", "b", "both"]),
+                         "op": w.choice(["remove_empty_rankings", "remove_empty_rankings", "remove_elements",
+                                         "remove_rate"]),
+                         "pick": w.randrange(64), "rate": w.choice([0.0, 0.3, 0.6])}
+            if w.random() < 0.5:
+                new.insert(w.randrange(len(new) + 1), [])
         elif kind == "move_element":
             cand = [(i, j) for i, r in enumerate(new) for j, b in enumerate(r) if len(r) > 1]
             if cand:
@@ -166,8 +177,27 @@ def run_case(case, ctx):
             if not okd:
                 ctx.probe("derive_failed")
                 continue
+        a_cur = a
+        if v.get("edit"):
+            ed = v["edit"]
+            a_cur = build_dataset(case["base"])  # a private copy of the base: the edit must not leak to later variants
+            call(lambda: a_cur == b)
+            call(lambda: b == a_cur)
+            for side, obj in (("a", a_cur), ("b", b)):
+                if ed["side"] not in (side, "both"):
+                    continue
+                if ed["op"] == "remove_empty_rankings":
+                    call(obj.remove_empty_rankings)
+                elif ed["op"] == "remove_rate":
+                    call(obj.remove_elements_rate_presence_lower_than, ed["rate"])
+                else:
+                    u = sorted(obj.universe, key=lambda e: str(e))
+                    if len(u) > 1:
+                        call(obj.remove_elements, {u[ed["pick"] % len(u)]})
+            ctx.probe("edited_in_place")
+        ma_cur = canon_rankings(a_cur.rankings)
         mb = canon_rankings(b.rankings)
-        expected = model.multiset(ma) == model.multiset(mb)
+        expected = model.multiset(ma_cur) == model.multiset(mb)
         if kind in ("reinsertion", "reverse_buckets") and any(len(bk) > 1 for r in ma for bk in r):
             ctx.probe("reordered_bucket")
         if kind in ("move_element", "split_bucket", "merge_buckets", "multiplicity", "swap_buckets", "replace_element",
@@ -176,6 +206,8 @@ def run_case(case, ctx):
         if len(ma) > 1 or any(len(bk) > 1 for r in ma for bk in r):
             ctx.probe("pairs_nontrivial")
         ctx.probe("equal_pairs" if expected else "unequal_pairs")
+        a_saved, a = a, a_cur
+        ma_saved, ma = ma, ma_cur
         ok1, ab = call(lambda: a == b)
         ok2, ba = call(lambda: b == a)
         ctx.event("pair", kind, expected, repr(ab)[:10], repr(ba)[:10])
@@ -204,3 +236,4 @@ def run_case(case, ctx):
         okn2, cmp_other = call(lambda: a == 42)
         if okn2 and cmp_other is True:
             ctx.violate("C17/equality", {"a == 42": True}, False, t, "a == 42")
+        a, ma = a_saved, ma_saved
